@@ -33,7 +33,7 @@ var c16Reviewed = map[string]string{
 func C16(p *ir.Program, r *report.R) {
 	c := C{p, r}
 	r.Floor = 40
-	r.Explain = "Decided: no panic-capable operation on peer-controlled data is reachable, unguarded, in the consensus goroutine (which logs and EXITS on panic) and in the gossip goroutines (no recover). Taint sources are the message structs delivered to ConsensusState.handleMsg (proposal, block part, vote) and the proposal block decoded from peer parts; taint flows field-insensitively below a tainted root and through parameter binding with per-function summaries to a fixed point over packages consensus, consensus/types, types, libs/common, libs/crypto/merkle. Sinks: dereference of pointers/interfaces loaded from tainted data (every pointer inside a decoded message is optional), index/slice bounds and allocation sizes computed from tainted integers, unchecked type assertions, division. A sink is discharged by a dominating guard on the same operand or by a reviewed-table row. ADDED after seeded-change testing: WALEncoder.Encode returns only the writer's error (baseWAL.Write panics on any error and runs on every queued peer message) ; Lock regions: between a non-deferred Lock of the consensus mutex and its Unlock inside a reactor Receive only field reads and size getters occur (a recovered panic there would leave the mutex locked for ever). Rounds 4-5: recover is entered only after waiting since the height's start time; the deferred recover of receiveRoutine is kept (deferred-cleanup rule). NOT decided: resource exhaustion by volume, liveness under flooding, the blockchain/mempool/evidence channels, panics inside third-party code."
+	r.Explain = "Decided: no panic-capable operation on peer-controlled data is reachable, unguarded, in the consensus goroutine (which logs and EXITS on panic) and in the gossip goroutines (no recover). Taint sources are the message structs delivered to ConsensusState.handleMsg (proposal, block part, vote) and the proposal block decoded from peer parts; taint flows field-insensitively below a tainted root and through parameter binding with per-function summaries to a fixed point over packages consensus, consensus/types, types, libs/common, libs/crypto/merkle. Sinks: dereference of pointers/interfaces loaded from tainted data (every pointer inside a decoded message is optional), index/slice bounds and allocation sizes computed from tainted integers, unchecked type assertions, division. A sink is discharged by a dominating guard on the same operand or by a reviewed-table row. ADDED after seeded-change testing: WALEncoder.Encode returns only the writer's error (baseWAL.Write panics on any error and runs on every queued peer message) ; Lock regions: between a non-deferred Lock of the consensus mutex and its Unlock inside a reactor Receive only field reads and size getters occur (a recovered panic there would leave the mutex locked for ever). Rounds 4-5: recover is entered only after waiting since the height's start time; the deferred recover of receiveRoutine is kept (deferred-cleanup rule). Round 6: what Receive puts on peerMsgQueue had its payload pointer dereferenced in Receive first, on every path. NOT decided: resource exhaustion by volume, liveness under flooding, the blockchain/mempool/evidence channels, panics inside third-party code."
 	r.Trusted = []string{"MConnection._recover turns a reactor-side panic into a dropped peer", "libs/ser decoding (C11)"}
 
 	scope := func(f *ssa.Function) bool {
